@@ -539,19 +539,13 @@ def Val.isSecretSc : Val → Bool
   | _ => false
 
 /-- why an instruction (with the operand KINDS it meets) is outside the coverage of
-`C05_program_total` -/
+`C05_program_total`.  One reason is left: a secret exponent / shift count, array access through a
+secret index and the assertion methods are covered (their side conditions are in `InDomain`). -/
 inductive PyGap
   /-- the API raises by type dispatch alone on these operand kinds (TypeError / RuntimeError /
   AttributeError), or the instruction is not an operation on secret values (both operands plain
   ints; the model reports it as not covered) -/
   | kinds
-  /-- totality not yet composed for a secret exponent / secret shift count (`x ** e`, `x << e`,
-  `x >> e`, `c ** e` with `e` secret) -/
-  | secretExponent
-  /-- totality not yet composed for array reads / writes through a secret index -/
-  | secretIndex
-  /-- the assertion methods raise by design when the asserted relation is false (C03's subject) -/
-  | assertion
 deriving DecidableEq, Repr
 
 def pyGapBin (op : BinOp) (a b : Val) : Option PyGap :=
@@ -566,8 +560,8 @@ def pyGapBin (op : BinOp) (a b : Val) : Option PyGap :=
   | .pow | .lshift | .rshift =>
     match a, b with
     | .lc _, .int _ => Option.none
-    | .lc _, .lc _ => some .secretExponent
-    | .int _, .lc _ => some .secretExponent
+    | .lc _, .lc _ => Option.none
+    | .int _, .lc _ => Option.none
     | _, _ => some .kinds
   | .band | .bxor | .bor =>
     match a, b with
@@ -627,7 +621,23 @@ def pyGapCall (m : Meth) (self : Val) (args : List Val) : Option PyGap :=
     match self with
     | .list xs => if xs.all Val.isSecretSc then Option.none else some .kinds
     | _ => some .kinds
-  | _ => some .assertion
+  | .assertPositive =>
+    match self with
+    | .lc _ => if pyWidthArgs args then Option.none else some .kinds
+    | .lcb _ => if args.isEmpty then Option.none else some .kinds
+    | _ => some .kinds
+  | .assertZero | .assertNonzero => if self.isSecretSc then Option.none else some .kinds
+  | .assertLt | .assertLe | .assertEq | .assertNe | .assertGt | .assertGe =>
+    -- `LinComb.assert_*(o)`: `o` a plain or secret integer (`_ensurelc`);
+    -- `LinCombBool.assert_*(o)`: `o` any scalar (`_ensurebool`; its value must be 0/1: `InDomain`)
+    match self, args with
+    | .lc _, [o] => if o.isIntLike then Option.none else some .kinds
+    | .lcb _, [o] => if o.isSc then Option.none else some .kinds
+    | _, _ => some .kinds
+  | .assertRange =>
+    match self, args with
+    | .lc _, [lo, hi] => if lo.isIntLike && hi.isIntLike then Option.none else some .kinds
+    | _, _ => some .kinds
 
 /-- the registers `is` of the register file -/
 def pyArgs (regs : List Val) : List Nat → Option (List Val)
@@ -678,12 +688,12 @@ def Instr.pyGap (regs : List Val) : Instr → Option PyGap
   | .aget a i =>
     match regs[a]?, regs[i]? with
     | some (.list _), some (.int _) => Option.none
-    | some (.list _), some (.lc _) => some .secretIndex
+    | some (.list _), some (.lc _) => Option.none
     | _, _ => some .kinds
   | .aset a i v =>
     match regs[a]?, regs[i]?, regs[v]? with
     | some (.list _), some (.int _), some _ => Option.none
-    | some (.list _), some (.lc _), some _ => some .secretIndex
+    | some (.list _), some (.lc _), some _ => Option.none
     | _, _, _ => some .kinds
   | .genter _ => some .kinds
   | .gleave => some .kinds
@@ -716,24 +726,28 @@ def nzModP (p d : Int) : Bool := decide (d = 0) || decide (d % p ≠ 0)
 def is01 (x : Int) : Bool := decide (x = 0) || decide (x = 1)
 
 /-- **the documented domain of a binary operator** on the reference values `x`, `y` (`ba`, `bb`:
-the operand is a boolean), bit length `bl`, modulus `p`.  These are the exact bounds the per-operator
-totality lemmas need:
+the operand is a boolean; `sb`: the right operand is a SECRET integer), bit length `bl`, modulus `p`.
+These are the exact bounds the per-operator totality lemmas need:
 * comparisons: the difference the gadget range-checks fits: `|y-x-1|` (`<`), `|y-x|` (`<=`),
   `|x-y-1|` (`>`), `|x-y|` (`>=`) below `2^bl`; `==`, `!=`: `x-y` is zero or non-zero mod `p`;
   a boolean operand coerces the other one, which must be 0/1;
 * `//`, `%`, `divmod`: `0 < y ≤ 2^bl` (a NEGATIVE divisor raises: recorded deviation C05-neg-divisor;
   a zero divisor raises in Python too);
 * `/`: `y` not a multiple of `p` (`y ≠ 0` and exactness are already needed by the reference);
-* `**`: public exponent at most 300, `<<`: public count at most 4096 (bounds of the model);
-* `>>`: `0 ≤ x < 2^bl`;  `&`, `|`, `^`: both operands in `[0, 2^bl)`, 0/1 next to a boolean. -/
-def pyDomBin (p : Int) (bl : Nat) (op : BinOp) (ba bb : Bool) (x y : Int) : Bool :=
+* `**`: public exponent at most 300 (bound of the model); SECRET exponent in `[0, 2^bl)` (it is
+  bit-decomposed at the current bit length; the squares and products are reduced mod `p`, no bound);
+* `<<`: public count at most 4096 (bound of the model); SECRET count in `[0, 2^bl)`;
+* `>>`: public count: `0 ≤ x < 2^bl`; SECRET count `y`: `0 ≤ y ≤ bl` (the gadget floor-divides by the
+  secret `2^y`, a divisor that must lie in `(0, 2^bl]` as for `//`; no bound on `x`);
+* `&`, `|`, `^`: both operands in `[0, 2^bl)`, 0/1 next to a boolean. -/
+def pyDomBin (p : Int) (bl : Nat) (op : BinOp) (ba bb sb : Bool) (x y : Int) : Bool :=
   match op with
   | .add | .sub | .mul => true
   | .truediv => decide (y % p ≠ 0)
   | .floordiv | .mod | .divmod => decide (0 < y) && decide (y ≤ 2 ^ bl)
-  | .pow => decide (y ≤ 300)
-  | .lshift => decide (y ≤ 4096)
-  | .rshift => inBits bl x
+  | .pow => if sb then inBits bl y else decide (y ≤ 300)
+  | .lshift => if sb then inBits bl y else decide (y ≤ 4096)
+  | .rshift => if sb then decide (0 ≤ y) && decide (y ≤ bl) else inBits bl x
   | .band | .bxor | .bor => inBits bl x && inBits bl y && (!ba || is01 y) && (!bb || is01 x)
   | .lt => fitsAbs bl (y - x - 1) && (!ba || is01 y) && (!bb || is01 x)
   | .le => fitsAbs bl (y - x) && (!ba || is01 y) && (!bb || is01 x)
@@ -741,6 +755,24 @@ def pyDomBin (p : Int) (bl : Nat) (op : BinOp) (ba bb : Bool) (x y : Int) : Bool
   | .ge => fitsAbs bl (x - y) && (!ba || is01 y) && (!bb || is01 x)
   | .eq | .ne => nzModP p (x - y) && (!ba || is01 y) && (!bb || is01 x)
 
+/-- `x.assert_lt(y)`, …: the asserted relation HOLDS on the reference values, and the difference
+the gadget range-checks fits the bit length exactly as for the comparison operator (`assert_ne`:
+the difference is invertible modulo `p`) -/
+def pyDomAssertCmp (p : Int) (bl : Nat) (m : Meth) (x y : Int) : Bool :=
+  match m with
+  | .assertLt => decide (x < y) && fitsAbs bl (y - x - 1)
+  | .assertLe => decide (x ≤ y) && fitsAbs bl (y - x)
+  | .assertGt => decide (y < x) && fitsAbs bl (x - y - 1)
+  | .assertGe => decide (y ≤ x) && fitsAbs bl (x - y)
+  | .assertEq => decide (x = y)
+  | .assertNe => decide (x ≠ y) && decide ((x - y) % p ≠ 0)
+  | _ => true
+
+/-- **the documented domain of a method call**.  The assertion methods: the asserted relation holds
+(an assertion whose relation is false raises by design: C03) and the range-checked differences fit:
+`assert_zero`: `x = 0`; `assert_nonzero`: `x` non-zero modulo `p`; `assert_positive(n)`:
+`0 ≤ x < 2^n`, `n ≤ 4096`; `assert_lt/le/gt/ge/eq/ne(y)`: `pyDomAssertCmp`, and `y` is 0/1 when
+`x` is a boolean; `assert_range(lo, hi)`: `lo ≤ x < hi` with `x - lo` and `hi - x - 1` below `2^bl`. -/
 def pyDomCall (p : Int) (bl : Nat) (m : Meth) (self : PyVal) (args : List PyVal) : Bool :=
   match m with
   | .toBits =>
@@ -755,15 +787,60 @@ def pyDomCall (p : Int) (bl : Nat) (m : Meth) (self : PyVal) (args : List PyVal)
     match self.num? with
     | some x => nzModP p x
     | Option.none => false
-  | _ => true
+  | .assertPositive =>
+    match self.num?, pyWidth bl args with
+    | some x, some n => decide (n ≤ 4096) && inBits n x
+    | _, _ => false
+  | .assertZero =>
+    match self.num? with
+    | some x => decide (x = 0)
+    | Option.none => false
+  | .assertNonzero =>
+    match self.num? with
+    | some x => decide (x ≠ 0) && decide (x % p ≠ 0)
+    | Option.none => false
+  | .assertLt | .assertLe | .assertEq | .assertNe | .assertGt | .assertGe =>
+    match self.num?, args with
+    | some x, [o] =>
+      match o.num? with
+      | some y => pyDomAssertCmp p bl m x y && (!self.isBool || is01 y)
+      | Option.none => false
+    | _, _ => false
+  | .assertRange =>
+    match self.num?, args with
+    | some x, [lo, hi] =>
+      match lo.num?, hi.num? with
+      | some l, some h =>
+        decide (l ≤ x) && decide (x < h) && fitsAbs bl (x - l) && fitsAbs bl (h - x - 1)
+      | _, _ => false
+    | _, _ => false
+  | .val | .ifElse | .fromBits => true
 
-/-- **the documented domain of one instruction** on the reference registers -/
-def pyDom (p : Int) (bl : Nat) (regs : List PyVal) : Instr → Bool
+/-- register `i` of the traced run holds a SECRET integer -/
+def secretAt (kinds : List Val) (i : Nat) : Bool :=
+  match kinds[i]? with
+  | some (.lc _) => true
+  | _ => false
+
+/-- array access `a[i]` through a SECRET index: `0 ≤ i < len(a)` (a negative secret index raises;
+a public one counts from the end, as in Python) and `len(a) ≤ p` (the one-hot selectors are zero
+tests of `i - k`, `0 ≤ k < len(a)`: no non-zero multiple of `p` among them) -/
+def pyDomIdx (p : Int) (regs : List PyVal) (a i : Nat) : Bool :=
+  match regs[a]?, regs[i]? with
+  | some (.list xs), some pi =>
+    match pi.num? with
+    | some k => decide (0 ≤ k) && decide (k < xs.length) && decide ((xs.length : Int) ≤ p)
+    | Option.none => false
+  | _, _ => false
+
+/-- **the documented domain of one instruction** on the reference registers `regs`; `kinds`: the
+registers of the traced run, looked at only for "is this operand a secret integer" (`secretAt`) -/
+def pyDom (p : Int) (bl : Nat) (regs : List PyVal) (kinds : List Val) : Instr → Bool
   | .bin op a b =>
     match regs[a]?, regs[b]? with
     | some pa, some pb =>
       match pa.num?, pb.num? with
-      | some x, some y => pyDomBin p bl op pa.isBool pb.isBool x y
+      | some x, some y => pyDomBin p bl op pa.isBool pb.isBool (secretAt kinds b) x y
       | _, _ => false
     | _, _ => false
   | .un .abs a =>
@@ -783,21 +860,28 @@ def pyDom (p : Int) (bl : Nat) (regs : List PyVal) : Instr → Bool
     | some pc =>
       (t == f) || (match pc.num? with | some x => is01 x | Option.none => false)
     | Option.none => false
+  | .aget a i => !secretAt kinds i || pyDomIdx p regs a i
+  | .aset a i _ => !secretAt kinds i || pyDomIdx p regs a i
   | _ => true
 
-/-- replay of the REFERENCE run: every instruction it executes is inside the documented domain -/
-def pyDomAux (p : Int) : List Instr → Nat → List PyVal → Bool
-  | [], _, _ => true
-  | i :: is, bl, regs =>
-    pyDom p bl regs i &&
-    match pyStep bl regs i with
-    | .ok (v, regs', bl') => pyDomAux p is bl' (regs' ++ [v])
-    | .error _ => true
+/-- replay of the REFERENCE run next to the traced run (the latter only supplies the operand kinds):
+every instruction both execute is inside the documented domain -/
+def pyDomAux (p : Int) : List Instr → Nat → List PyVal → List Val → List GuardBak → St → Bool
+  | [], _, _, _, _, _ => true
+  | i :: is, bl, pregs, regs, frames, s =>
+    pyDom p bl pregs regs i &&
+    match pyStep bl pregs i, step regs frames i s with
+    | .ok (v, pregs', bl'), .ok ((w, regs', frames'), s') =>
+      pyDomAux p is bl' (pregs' ++ [v]) (regs' ++ [w]) frames' s'
+    | _, _ => true
 
-/-- **the documented domain** of the reference run of `prog`: decidable; see `pyDomBin`, `pyDomCall` -/
-def InDomain (p : Int) (bl : Nat) (prog : List Instr) : Prop := pyDomAux p prog bl [] = true
+/-- **the documented domain** of the run of `prog` from `s0`: decidable; see `pyDomBin`,
+`pyDomCall`, `pyDomIdx`.  The conditions are on the REFERENCE values (modulus and initial bit length
+are those of `s0`); the traced run is replayed next to it only to tell a secret exponent / shift
+count / index from a public one. -/
+def InDomain (s0 : St) (prog : List Instr) : Prop := pyDomAux s0.p prog s0.bitlength [] [] [] s0 = true
 
-instance (p : Int) (bl : Nat) (prog : List Instr) : Decidable (InDomain p bl prog) :=
+instance (s0 : St) (prog : List Instr) : Decidable (InDomain s0 prog) :=
   inferInstanceAs (Decidable (_ = true))
 
 end Pysnark
